@@ -219,17 +219,19 @@ _WORKER = {}
 
 
 def _worker_call(args):
-    fn, idx, payload = args
+    idx, payload = args
     try:
-        return fn(idx, payload)
+        return _WORKER["fn"](idx, payload)
     except Exception:
         return {"crash": traceback.format_exc()}
 
 
 def run_cases(fn, payloads, workers=None):
-    """fn(idx, payload) -> dict, executed in forked workers (each may lazily create its own Driver)"""
+    """fn(idx, payload) -> dict, executed in forked workers (each may lazily create its own Driver).
+    fn may be a closure: it is handed to the children through fork, not through pickling."""
     workers = workers or min(14, os.cpu_count() or 4)
-    jobs = [(fn, i, p) for i, p in enumerate(payloads)]
+    jobs = [(i, p) for i, p in enumerate(payloads)]
+    _WORKER["fn"] = fn
     if workers <= 1 or len(jobs) < 8:
         return [_worker_call(j) for j in jobs]
     with mp.get_context("fork").Pool(workers) as pool:
